@@ -941,9 +941,11 @@ def process_commandline(out: OutputBuffer, args: List[str]) -> 'AuditConf':  # p
         list_policies(out, aconf.verbose)
         sys.exit(exitcodes.GOOD)
 
+    target_port = 0
     if aconf.client_audit is False and aconf.target_file is None:
         if oport is not None:
-            host = argument.host
+            # The port option is the default for a target that does not name a port itself ("host:port" and "[IPv6]:port" keep theirs).
+            host, target_port = Utils.parse_host_and_port(argument.host, default_port=0)
         else:
             host, port = Utils.parse_host_and_port(argument.host)
 
@@ -959,6 +961,8 @@ def process_commandline(out: OutputBuffer, args: List[str]) -> 'AuditConf':  # p
         if port < 1 or port > 65535:
             out.fail("port must be greater than 0 and less than 65535: {}".format(oport), write_now=True)
             sys.exit(exitcodes.UNKNOWN_ERROR)
+        if target_port > 0:
+            port = target_port
 
     aconf.host = host
     aconf.port = port
